@@ -859,7 +859,7 @@ impl Check for C10 {
 		CheckInfo {
 			id: "C10",
 			level: "fault_enumeration",
-			rule: "half of the cases enumerate, for a 12-packet stream, (fault: the k-th decode call fails for k = 0..13, the k-th seek call fails for k = 0..3 incl. the one inside into_sound, or no fault) x (ending: natural end, stop, rejected by a full track, track dropped, manager dropped) x (decoder pace: ahead, in time, starving, stalled) with seeded timing; the other half draws stream length, packet sizes, seek granularity, looping, fault position, ending, pace, seek command and a paused track from the seed; in every case the sound may additionally be held (paused before a seeded callback, start time far in the future, start time on a clock that is never started) so that faults strike a sound that is not advancing; a third of the scheduled cases are a looping sound nobody stops with one failing decode call, while the gameplay task polls state() / pop_error(); non-trivial = every case (a decoder thread is created or into_sound fails); distinct = hash of (per-callback reported state, frames heard, errors fired)",
+			rule: "half of the cases enumerate, for a 12-packet stream, (fault: the k-th decode call fails for k = 0..13, the k-th seek call fails for k = 0..3 incl. the one inside into_sound, or no fault) x (ending: natural end, stop, rejected by a full track, track dropped, manager dropped) x (decoder pace: ahead, in time, starving, stalled) with seeded timing; the other half draws stream length, packet sizes, seek granularity, looping, fault position, ending, pace, seek command and a paused track from the seed; in every case the sound may additionally be held (paused before a seeded callback, start time far in the future, start time on a clock that is never started) so that faults strike a sound that is not advancing; a third of the scheduled cases are a looping sound nobody stops with one failing decode call, while the gameplay task polls state() / pop_error(); a sixteenth of all cases race the end of a short stream under random schedules with a decoder that is slow compared with the audio task (extra yield points per decode call, bursty schedules): the last frames and the end flag arrive while a chunk is being rendered; a stream that was simply played to its end must have been heard to its last source frame; non-trivial = every case (a decoder thread is created or into_sound fails); distinct = hash of (per-callback reported state, frames heard, errors fired)",
 			assumptions: vec![
 				"liveness is judged after faults have stopped, under a fair schedule: rounds of (one callback + 64 decoder loop iterations), at most (stream length + ring capacity + 64) / 64 + 8 rounds".into(),
 				"busy spin = a budget of >= 20 loop iterations used up with >= 2 errors raised, no frame delivered, no sleep and no exit".into(),
